@@ -197,6 +197,13 @@ def run(ctx):
             ctx.violation("rmc-reference:%s:p=%#x" % (sp[0], sp[1]) if sp[1] != 0x7F else "rmc-roundtrip:protocol=0x7F",
                           "bytes emitted by the real encoder differ from the reference framing",
                           {"spec": [sp[0], sp[1], sp[2], sp[3], sp[4].hex()], "real": real, "reference": model})
+        elif m[0] == "encraw" and model.startswith("ok") and real.startswith("ok"):
+            # a message object with in-range fields (e.g. a response object that carries an error code AND a body, as a server
+            # produces when a handler fails after writing part of its output): its bytes are fixed by the reference framing too
+            mode, p_, meth, c_, err = m[1]
+            ctx.violation("rmc-reference:object:mode=%d:error=%s" % (mode, "set" if err != -1 else "none"),
+                          "bytes emitted by the real encoder for a message object (mode %d, protocol %#x, method %r, call id %d, error %#x) differ from the reference framing" % (mode, p_, meth, c_, err & 0xFFFFFFFF),
+                          {"object": [mode, p_, meth, c_, err], "op": line[:4000], "real": real[:4000], "reference": model[:4000]})
     if diffs and not ctx.violations and not ctx.known_hits:
         line, real, model, m = diffs[0]
         ctx.corr_break("rmc-model-correspondence", "real RMCMessage and Lean model disagree on %d of %d lines" % (len(diffs), len(lines)),
